@@ -213,6 +213,7 @@ theorem prepare_shape (snap : Ring) (op : Op) (txs : List Tx) (ho : NoImport op)
   | addKey d => simp [prepare] at h; subst h; exact Or.inl ⟨_, rfl, rfl⟩
   | setCurrent s => simp [prepare] at h; subst h; right; intro t ht; simp at ht; subst ht; trivial
   | refresh => simp [prepare] at h; subst h; right; intro t ht; simp at ht
+  | «open» => simp [prepare] at h; subst h; right; intro t ht; simp at ht
   | setState s st =>
     simp only [prepare] at h
     split at h
@@ -370,28 +371,58 @@ theorem step_ord (c0 : Nat → Ring) (p : Nat) (s : St) (i : Nat) (hI : Inv c0 s
             · intro _ hc; simp at hc
           · rw [show step s i = s by simp [step, stepCall, hpc, htodo, hop, hprep, hl]]; exact h
   | locked =>
-    cases happ : applyAll (s.h i).txs (s.cur (s.h i).path) with
-    | none =>
-      have e : step s i = { s with h := upd s.h i { s.h i with pc := .failed, snap := s.cur (s.h i).path } } := by
-        simp [step, stepCall, hpc, happ]
-      rw [e]
-      refine ord_local p s _ i _ h rfl rfl (fun _ x => x) rfl ?_ ?_ ?_
-      · intro hp _; simp only at hp ⊢; rw [hp]; exact snapPrefix_refl _
-      · intro _ hc; simp at hc
-      · intro _ hc; simp at hc
-    | some r' =>
-      have e : step s i = { s with h := upd s.h i { s.h i with pc := .got, snap := s.cur (s.h i).path } } := by
-        simp [step, stepCall, hpc, happ]
-      rw [e]
-      refine ord_local p s _ i _ h rfl rfl (fun _ x => x) rfl ?_ ?_ ?_
-      · intro hp _; simp only at hp ⊢; rw [hp]; exact snapPrefix_refl _
-      · intro hp _
-        simp only at hp ⊢
-        have hs := h.txsL i hp (Or.inl hpc)
-        have hpre := h.pre i hp (by simp [hpc])
-        rw [hp] at happ ⊢
-        exact hs.rebase hpre happ
-      · intro _ hc; simp at hc
+    have hcsi : inCS (s.h i).pc := by simp [inCS, hpc]
+    obtain ⟨op, rest, htodo, hop⟩ := hI.todoW i hcsi
+    by_cases hex : s.ex (s.h i).path = true
+    · by_cases hopen : op = .open
+      · subst hopen
+        have e : step s i = { s with commits := s.commits ++ [(⟨i, (s.h i).path, []⟩ : Commit)], h := upd s.h i { s.h i with pc := .renamed, snap := s.cur (s.h i).path, txs := [] } } := by
+          simp [step, stepCall, hpc, htodo, hex]
+        rw [e]
+        refine ord_local p s _ i _ h rfl rfl (fun _ x => x) rfl ?_ ?_ ?_
+        · intro hp _; simp only at hp ⊢; rw [hp]; exact snapPrefix_refl _
+        · intro _ hc; simp at hc
+        · intro _ hc; simp at hc
+      · cases happ : applyAll (s.h i).txs (s.cur (s.h i).path) with
+        | none =>
+          have e : step s i = { s with h := upd s.h i { s.h i with pc := .failed, snap := s.cur (s.h i).path } } := by
+            simp [step, stepCall, hpc, htodo, hex, hopen, happ]
+          rw [e]
+          refine ord_local p s _ i _ h rfl rfl (fun _ x => x) rfl ?_ ?_ ?_
+          · intro hp _; simp only at hp ⊢; rw [hp]; exact snapPrefix_refl _
+          · intro _ hc; simp at hc
+          · intro _ hc; simp at hc
+        | some r' =>
+          have e : step s i = { s with h := upd s.h i { s.h i with pc := .got, snap := s.cur (s.h i).path } } := by
+            simp [step, stepCall, hpc, htodo, hex, hopen, happ]
+          rw [e]
+          refine ord_local p s _ i _ h rfl rfl (fun _ x => x) rfl ?_ ?_ ?_
+          · intro hp _; simp only at hp ⊢; rw [hp]; exact snapPrefix_refl _
+          · intro hp _
+            simp only at hp ⊢
+            have hs := h.txsL i hp (Or.inl hpc)
+            have hpre := h.pre i hp (by simp [hpc])
+            rw [hp] at happ ⊢
+            exact hs.rebase hpre happ
+          · intro _ hc; simp at hc
+    · have hex' : s.ex (s.h i).path = false := by simpa using hex
+      by_cases hopen : op = .open
+      · subst hopen
+        have e : step s i = { s with h := upd s.h i { s.h i with pc := .got, snap := emptyRing, txs := [] } } := by
+          simp [step, stepCall, hpc, htodo, hex']
+        rw [e]
+        refine ord_local p s _ i _ h rfl rfl (fun _ x => x) rfl ?_ ?_ ?_
+        · intro hp _; simp only at hp ⊢
+          rw [← hp, (hI.miss _ hex').1]; exact snapPrefix_refl _
+        · intro _ _; right; intro t ht; simp at ht
+        · intro _ hc; simp at hc
+      · have e : step s i = { s with h := upd s.h i { s.h i with pc := .failed } } := by
+          simp [step, stepCall, hpc, htodo, hex', hopen]
+        rw [e]
+        refine ord_local p s _ i _ h rfl rfl (fun _ x => x) rfl ?_ ?_ ?_
+        · intro hp _; exact h.pre i hp (by simp [hpc])
+        · intro _ hc; simp at hc
+        · intro _ hc; simp at hc
   | got =>
     have hcsi : inCS (s.h i).pc := by simp [inCS, hpc]
     obtain ⟨hsnap, hsome⟩ := hI.gotOk i hpc
@@ -420,7 +451,7 @@ theorem step_ord (c0 : Nat → Ring) (p : Nat) (s : St) (i : Nat) (hI : Inv c0 s
   | put =>
     have hcsi : inCS (s.h i).pc := by simp [inCS, hpc]
     obtain ⟨hp1, hp2⟩ := hI.putOk i hpc
-    have e : step s i = { s with cur := upd s.cur (s.h i).path (s.h i).snap, new := upd s.new (s.h i).path none, commits := s.commits ++ [(⟨i, (s.h i).path, (s.h i).txs⟩ : Commit)], h := upd s.h i { s.h i with pc := .renamed } } := by
+    have e : step s i = { s with cur := upd s.cur (s.h i).path (s.h i).snap, new := upd s.new (s.h i).path none, commits := s.commits ++ [(⟨i, (s.h i).path, (s.h i).txs⟩ : Commit)], ex := upd s.ex (s.h i).path true, h := upd s.h i { s.h i with pc := .renamed } } := by
       simp [step, stepCall, hpc, hp1]
     rw [e]
     by_cases hp : (s.h i).path = p
@@ -490,15 +521,29 @@ theorem step_ord (c0 : Nat → Ring) (p : Nat) (s : St) (i : Nat) (hI : Inv c0 s
     rw [e]
     exact ord_finish p s _ i _ h rfl rfl (by simp [hpc])
   | rlocked =>
-    have e : step s i = { s with h := upd s.h i { s.h i with pc := .rgot, snap := s.cur (s.h i).path } } := by
-      simp [step, stepCall, hpc]
-    rw [e]
-    refine ord_local p s _ i _ h rfl rfl (fun _ x => x) rfl ?_ ?_ ?_
-    · intro hp _; simp only at hp ⊢; rw [hp]; exact snapPrefix_refl _
-    · intro _ hc; simp at hc
-    · intro _ hc; simp at hc
+    by_cases hex : s.ex (s.h i).path = true
+    · have e : step s i = { s with h := upd s.h i { s.h i with pc := .rgot, snap := s.cur (s.h i).path } } := by
+        simp [step, stepCall, hpc, hex]
+      rw [e]
+      refine ord_local p s _ i _ h rfl rfl (fun _ x => x) rfl ?_ ?_ ?_
+      · intro hp _; simp only at hp ⊢; rw [hp]; exact snapPrefix_refl _
+      · intro _ hc; simp at hc
+      · intro _ hc; simp at hc
+    · have hex' : s.ex (s.h i).path = false := by simpa using hex
+      have e : step s i = { s with h := upd s.h i { s.h i with pc := .rfailed } } := by
+        simp [step, stepCall, hpc, hex']
+      rw [e]
+      refine ord_local p s _ i _ h rfl rfl (fun _ x => x) rfl ?_ ?_ ?_
+      · intro hp _; exact h.pre i hp (by simp [hpc])
+      · intro _ hc; simp at hc
+      · intro _ hc; simp at hc
   | rgot =>
     have e : step s i = { s with readers := s.readers.erase i, h := upd s.h i (finish (s.h i) (some [])) } := by
+      simp [step, stepCall, hpc]
+    rw [e]
+    exact ord_finish p s _ i _ h rfl rfl (by simp [hpc])
+  | rfailed =>
+    have e : step s i = { s with readers := s.readers.erase i, h := upd s.h i (finish (s.h i) none) } := by
       simp [step, stepCall, hpc]
     rw [e]
     exact ord_finish p s _ i _ h rfl rfl (by simp [hpc])
